@@ -43,6 +43,7 @@ REF_IDENTITY = (
     "core::array::<impl std::convert::AsRef<[T]> for [T; N]>::as_ref",
     "<std::vec::Vec<T, A> as std::ops::Deref>::deref",
     "<std::vec::Vec<T, A> as std::ops::DerefMut>::deref_mut",
+    "std::vec::Vec::<T, A>::as_slice", "std::vec::Vec::<T, A>::as_mut_slice",       # the same view, named
     "<digest::generic_array::GenericArray<T, N> as std::ops::Deref>::deref",
     "<digest::generic_array::GenericArray<T, N> as std::ops::DerefMut>::deref_mut",
     "std::io::Read::by_ref", "std::io::Write::by_ref",      # `&mut *self`: the reader / writer itself
@@ -497,6 +498,19 @@ class SymExec:
                 cand = "<%s as std::convert::From<%s>>::from" % (ra[1], ra[0])
                 if cand in self.fb.bodies:
                     name = cand
+                elif ra[1] == "num_bigint::BigInt" and ra[0] == "num_bigint::BigUint" and len(args) == 1 and args[0][0] == "call" and args[0][1] == "num_bigint::BigUint::from_bytes_le" and len(args[0][2]) == 1:
+                    # `BigUint::from_bytes_le(v).into()`: the non-negative BigInt of those bytes, which
+                    # num-bigint also spells `BigInt::from_bytes_le(Sign::Plus, v)` (zero included: both
+                    # normalise an all-zero magnitude to NoSign) - one spelling for the rules
+                    v = ("call", "num_bigint::BigInt::from_bytes_le", (("agg", "adt", "num_bigint::Sign", 2, ()), args[0][2][0]), site)
+                    dest = self.place_loc(st, t["dest"])
+                    self.write(st, dest, v)
+                    return {"k": "call", "name": "num_bigint::BigInt::from_bytes_le", "args": v[2], "locargs": v[2], "term": v, "inlined": True, "ret": v, "site": site, "dest": dest}
+                elif ra[1] == "num_bigint::BigInt" and ra[0] in ("u8", "u16", "u32", "u64", "usize"):
+                    # `v.into()` where the crate used to write `BigInt::from(v)`: the blanket `Into`
+                    # is that `From` impl, named as the direct call names it
+                    name = "num_bigint::bigint::convert::<impl std::convert::From<%s> for num_bigint::BigInt>::from" % ra[0]
+                    t = dict(t, resolved=name, callee=name)
         # `X::default()` where the crate names that very call `X::randomized()`: one spelling
         if name in getattr(self.fb, "named_as", {}) and self.fn != self.fb.named_as[name]:
             name = self.fb.named_as[name]
